@@ -129,3 +129,26 @@ Definition ccase_ok (c : ckind * val * json * val) : bool :=
   | Some d' => obs_eqb d' d
   | None => false
   end.
+
+(* the type of a field addressed by JSON path *)
+Fixpoint get_path_ty (fuel : nat) (t : ty) (path : list string) : option ty :=
+  match path with
+  | [] => Some t
+  | name :: rest =>
+      match fuel with
+      | O => None
+      | S fuel' =>
+          match t with
+          | TStruct fs =>
+              match field_index_exact name fs 0 with
+              | Some i => match nth_error fs i with
+                          | Some (_, _, ft) => get_path_ty fuel' ft rest
+                          | None => None
+                          end
+              | None => None
+              end
+          | _ => None
+          end
+      end
+  end.
+Definition getp_ty (t : ty) (path : list string) : option ty := get_path_ty 8 t path.
